@@ -1027,6 +1027,27 @@ pub fn c06_cases(rng: &mut Rng, tier: &str, out: &mut Out) {
         case_a(rng, out, &format!("c06-a-rec{nrec}"), &plan, false, false);
         case_b(rng, out, &format!("c06-b-rec{nrec}"), &plan, false, false, false);
     }
+    // (a3) production constants: the encryption layer's plaintext takes every length around a chunk boundary
+    // (independent encoder -> library, and library -> independent decoder): one message per 128 KiB chunk, whatever the
+    // length of the last one
+    if !scaled {
+        let probe = Plan { names: vec![b"f".to_vec()], pieces: vec![(0, vec![1u8; 100])], layers: L_ENC, level: 0, recipients: 1, reader_key: 0 };
+        let p0 = indep::EncParams { layers: L_ENC, recipients: vec![[9u8; 32]], ephemeral: [1; 32], key: [2; 32], nonce: [3; 8], quality: 0, keep_empty_pieces: false, footer_rot: 0 };
+        let a0 = indep::encode(&probe.names, &probe.pieces, &p0);
+        let hl = 3 + 4 + 1 + 1 + 32 + 8 + 48 + 8;
+        let body = a0.len() - hl;
+        let overhead = body - 16 * ((body + 131072 + 15) / (131072 + 16)) - 100;
+        for k in if thorough { vec![1usize, 2] } else { vec![1usize] } {
+            for d in 0..10usize {
+                let size = k * 131072 - 3 + d - overhead;
+                let plan = Plan { names: vec![b"f".to_vec()], pieces: vec![(0, rng.bytes(size))], layers: L_ENC, level: 0, recipients: 1, reader_key: 0 };
+                case_b(rng, out, &format!("c06-b-edge{k}-{d}"), &plan, false, false, false);
+                if d % 3 == 0 {
+                    case_a(rng, out, &format!("c06-a-edge{k}-{d}"), &plan, false, false);
+                }
+            }
+        }
+    }
     // (a') every interleaving of up to 4 (quick) / 5 (thorough) pieces of sizes {0, 3} over two files
     // started up front (empty pieces given to the file that is / is not being written): the index
     // the writer leaves must be the one FORMAT.md describes (offsets of blocks of the SAME file)
